@@ -118,7 +118,11 @@ func startNode(dir string, fast bool) (*vnode, error) {
 	mux := http.NewServeMux()
 	mux.HandleFunc("/robustirc/v1/", n.api.DispatchPublic)
 	mux.HandleFunc("/", n.api.DispatchPrivate)
-	n.ln, err = net.Listen("tcp", "127.0.0.1:0")
+	listen := "127.0.0.1:0"
+	if a := os.Getenv("VERIF_LISTEN"); a != "" {
+		listen = a
+	}
+	n.ln, err = net.Listen("tcp", listen)
 	if err != nil {
 		return nil, err
 	}
